@@ -78,7 +78,10 @@ def run(S):
     if S.tier != 'quick':
         rdocs += deep.OFF_DOCS + deep.CODE_DOCS + deep.EMBED_DOCS
     fr, covr = reparse.explore(S, rdocs, tabs=(2,) if S.tier == 'quick' else (2, 4), widths=(0, 1 << 30) if S.tier == 'quick' else (0, 20, 40, 80, 120, 1 << 30))
-    reparse.report(S, 'C03', fr)
+    # what the printer normalises, at the widths in between as well: a decision that measures the source (blanks inside a chain, redundant parentheses)
+    # flips between the passes only near its threshold
+    fr2, covr2 = reparse.explore(S, reparse.NORMALISE_DOCS + reparse.TABLE_DOCS, tabs=(2,) if S.tier == 'quick' else (1, 2, 4), widths=(20, 27, 40, 80) if S.tier == 'quick' else (10, 27, 30, 60, 90, 100))
+    reparse.report(S, 'C03', fr + fr2)
     # with reordering on, the chosen order must not depend on spacing that formatting normalises
     f4 = c19.explore_spacing(S, 2 if S.tier == 'quick' else 3)
     groups = {}
